@@ -4,7 +4,7 @@ Model: coq/C04 (interleaving semantics of noise/layer.py + workers/handshake.py)
 Implementation: real YowNoiseSegmentsLayer + YowNoiseLayer + YowCoderLayer + consonance, against a
 Noise responder built from dissononce (harness/c04_noise.py), under a deterministic baton scheduler
 (harness/c04_rig.py) and in an unscheduled multi-threaded soak."""
-import random, time, json
+import random, time, json, hashlib
 from .. import modelrun
 from .. import c04_rig as R
 
@@ -23,6 +23,13 @@ ASSUME = [
     "through the extracted model (same schedule, same deliveries, same final state); schedules are seeded "
     "random walks / priority schedules and exhaustive enumeration for small scenarios; scheduling points are "
     "the instance's queue/lock operations, _in_handshake, profile.write_config, thread start and script events",
+    "presented payload: the model's auth events carry the configuration in force when they are emitted "
+    "(account, passive flag, attribute tuple as opaque codes); the responder decrypts the ClientPayload of "
+    "every connection; per connection it is compared with the model's prediction for that login (final "
+    "state of the trace replay) and, directly, with the configuration the harness had set when it emitted "
+    "the auth event; login histories (2-4 logins on one stack instance, configuration and server key "
+    "changing in between) are generated inside the proved reconnect domain (the next disconnect/auth is "
+    "handled when no handshake worker is alive)",
     "trusted: the Noise responder (server double), the scheduler's instrumentation of instance attributes "
     "(_incoming_segments_queue, _flush_lock, _in_handshake, profile.write_config, consonance's machine "
     "after_state_change hook, the segmented stream's two queues)",
@@ -33,25 +40,71 @@ ROUTING = b"\x08\x01\x12\x04edge"
 
 
 # ---------------------------------------------------------------- scenario <-> model
+ATTR_KEYS = ["push_name", "mcc", "mnc", "phone_id", "platform", "app_version", "os_version", "manufacturer",
+             "device", "os_build_number", "lang", "country", "short_connect"]
+PHONE = "4915112345678"
+STORED0 = {"XX": 0, "IK": 1, "FB": 2}
+
+
+def code(v):
+    """opaque attribute code for the model (it only ever compares / copies them)"""
+    return int.from_bytes(hashlib.sha256(repr(v).encode("utf-8")).digest()[:6], "big")
+
+
+def cfg_sx(p):
+    """a configuration / presented payload as the model's (username passive (attribute codes))"""
+    return [int(p.get("username") or 0), 1 if p.get("passive") else 0, [code(p.get(k)) for k in ATTR_KEYS]]
+
+
+def login_plan(scn):
+    """The logins of a scenario, from the scenario alone: per auth event the configuration in force
+    (what must be presented), the key the server answers with, whether its hello is corrupted, whether a
+    server hello is scripted for it, its transport segments, and the stored key before / after."""
+    cur = {"passive": bool(scn.get("passive", False)), "pushname": scn.get("pushname"), "mcc": scn.get("mcc"),
+           "mnc": scn.get("mnc"), "fdid": scn.get("fdid"), "srv": 1, "corrupt": scn.get("corrupt")}
+    stored = STORED0[scn["variant"]]
+    plan = []
+    for it in scn["script"]:
+        if it[0] == "auth":
+            if len(it) > 1 and it[1]:
+                cur.update(it[1])
+            plan.append({"configured": R.expected_presented_for(PHONE, cur["passive"], cur["pushname"], cur["mcc"],
+                                                                cur["mnc"], cur["fdid"]),
+                         "srv": cur["srv"], "ok": cur["corrupt"] is None, "answered": False, "data": [],
+                         "stored_before": stored, "stored_after": stored})
+        elif it[0] == "hello" and plan:
+            lg = plan[-1]
+            lg["answered"] = True
+            lg["stored_before"] = stored
+            if lg["ok"]:
+                stored = lg["srv"]
+            lg["stored_after"] = stored
+        elif it[0] == "data" and plan:
+            plan[-1]["data"].append(it[1])
+    return plan
+
+
 def model_args(scn, obs=None):
-    stored = {"XX": 0, "IK": 1, "FB": 2}[scn["variant"]]
+    stored = STORED0[scn["variant"]]
     cfg = [0, 0, stored, 0, 0, 1 if scn.get("edge") else 0]
-    scr, att, logged_in = [], 0, False
+    plan = login_plan(scn)
+    scr, att = [], 0
     cur_stored = stored
     for it in scn["script"]:
         if it[0] == "auth":
             att += 1
-            scr.append([0])
+            scr.append([0] + cfg_sx(plan[att - 1]["configured"]))
         elif it[0] == "disc":
             scr.append([1])
         elif it[0] == "hello":
-            ok = 0 if scn.get("corrupt") is not None else 1
-            static = 0 if cur_stored == 1 else 1      # the server has key 1: IK iff the client stored it
+            lg = plan[att - 1]
+            ok = 1 if lg["ok"] else 0
+            static = 0 if cur_stored == lg["srv"] else lg["srv"]    # IK iff the client stored the server's key
             if obs is not None and att - 1 < len(obs["resp"]) and obs["resp"][att - 1]["variant"]:
-                static = 0 if obs["resp"][att - 1]["variant"] == "IK" else 1   # what this server really answered
+                static = 0 if obs["resp"][att - 1]["variant"] == "IK" else lg["srv"]   # what this server really answered
             scr.append([2, 100 + att, att, ok, static])
             if ok:
-                cur_stored = 1
+                cur_stored = lg["srv"]
         else:
             scr.append([3, it[1]])
     return cfg, scr
@@ -65,7 +118,7 @@ def scn_json(scn):
     d = dict(scn)
     d["edge"] = hexs(d.get("edge")) if d.get("edge") else None
     if "script" in scn:
-        d["script"] = [list(i) for i in scn["script"]]
+        d["script"] = [[dict(x) if isinstance(x, dict) else x for x in i] for i in scn["script"]]
     return d
 
 
@@ -123,21 +176,36 @@ class Checker(object):
         it cut off had not terminated (still waiting for / processing the server hello)"""
         return any(obs.get("cut_live", []))
 
-    def run_case(self, scn, chooser, chunk_seed, kind, name=None):
+    def run_case(self, scn, chooser, chunk_seed, kind, name=None, record=True):
         ctx = self.ctx
         self.n += 1
         self.kinds[kind] = self.kinds.get(kind, 0) + 1
         obs = R.run_scheduled(ctx.scratch, name or ("c%d" % self.n), scn, chooser, random.Random(chunk_seed))
         case = {"mode": "scheduled", "scenario": scn_json(scn), "schedule": obs["trace"], "chunk_seed": chunk_seed}
-        bad = self.judge(scn, obs, case)
+        bad = self.judge(scn, obs, case, record=record)
         self.distinct.add((json.dumps(scn_json(scn), sort_keys=True), tuple(obs["trace"])))
         return obs, bad
 
-    def judge(self, scn, obs, case, verbose=False):
+    @staticmethod
+    def presented_per_login(scn, obs):
+        """the concrete history: which login presented which payload (and what was configured)"""
+        plan = login_plan(scn)
+        out = []
+        for i, r in enumerate(obs["resp"]):
+            conf = plan[i]["configured"] if i < len(plan) else None
+            p = r["presented"]
+            out.append({"login": i + 1, "handshake": r["variant"],
+                        "configured": conf, "presented": None if p is None else {k: p.get(k) for k in (conf or p)}})
+        return out
+
+    def judge(self, scn, obs, case, verbose=False, record=True):
         """model replay + oracles; records violations; returns list of failed names"""
         ctx = self.ctx
         failed = []
         finding_hist = self.history_is_finding(obs)
+        if len(login_plan(scn)) > 1:
+            case = dict(case)
+            case["logins"] = self.presented_per_login(scn, obs)
 
         def viol(name, extra, found_input=True):
             failed.append(name)
@@ -145,6 +213,8 @@ class Checker(object):
             c.update(extra)
             if verbose:
                 print("FAILED %s: %s" % (name, json.dumps(extra, default=str)[:600]))
+            if not record:
+                return
             if not found_input and name.startswith("correspondence:"):
                 self.nocase += 1
                 if self.nocase > 3:
@@ -197,6 +267,26 @@ class Checker(object):
                          {"model": [m_status, summ[0], list(summ[1]), list(summ[2])],
                           "impl": [r_status, obs["state"], obs["inq_left"], obs["lock_owner"]]},
                          found_input=bool(self.oracle_fail_names(scn, obs)))
+                # ---- the model's prediction of what each connection is presented (pres of the final state)
+                pred = {}
+                for cn, kind, payload in (summ[11] if len(summ) > 11 else []):
+                    pred.setdefault((cn, kind), []).append([payload[0], 1 if payload[1] else 0, list(payload[2])])
+                for i, r in enumerate(obs["resp"]):
+                    if r["presented"] is None:
+                        continue
+                    seen = cfg_sx(r["presented"])
+                    want = pred.get((i + 1, 1 if r["variant"] == "IK" else 2), [])
+                    if (seen not in want) if finding_hist else (want != [seen]):
+                        self.mismatch += 1
+                        plan = login_plan(scn)
+                        viol("correspondence:C04.presented",
+                             {"login": i + 1, "handshake": r["variant"],
+                              "model_predicts": "the configuration of auth event %d" % (i + 1),
+                              "model_payload_codes": want, "impl_payload_codes": seen,
+                              "configured": plan[i]["configured"] if i < len(plan) else None,
+                              "presented": r["presented"]},
+                             found_input=bool(self.oracle_fail_names(scn, obs)))
+                        break
         # ---- property oracles directly on the implementation
         for name, extra in self.oracle_fail_names(scn, obs):
             viol(name, extra)
@@ -217,48 +307,64 @@ class Checker(object):
     def oracle_fail_names(self, scn, obs):
         """the property, stated on the observations of the real run"""
         out = []
-        script = scn["script"]
-        ok = scn.get("corrupt") is None
+        plan = login_plan(scn)
+        answered = [lg for lg in plan if lg["answered"]]
+        all_ok = all(lg["ok"] for lg in answered)
         st = self.real_status(obs)
         if any(v != "done" for v in st.values()):
             out.append(("oracle:no_deadlock", {"observed": obs["status"], "exceptions": obs["exc"],
                                                "expected": "every thread finishes (nobody waiting, nobody raised)"}))
         ups = [g[1] for g in obs["top"] if g[0] == "up"]
         fails = [g[0] for g in obs["top"] if g[0] in ("event", "failure")]
-        exp_ups = ["s%d" % it[1] for it in script if it[0] == "data"]
-        if ok:
+        exp_ups = ["s%d" % i for lg in answered if lg["ok"] for i in lg["data"]]
+        exp_fails = [k for lg in answered if not lg["ok"] for k in ("event", "failure")]
+        exp_kinds = [k for lg in answered for k in (["up"] * len(lg["data"]) if lg["ok"] else ["event", "failure"])]
+        nper = [x for x in obs["log"] if x[1] == 15]
+        exp_writes = [lg["srv"] for lg in answered if lg["ok"] and lg["stored_before"] != lg["srv"]]
+        exp_disk = plan[-1]["stored_after"] if plan else STORED0[scn["variant"]]
+        if all_ok:
             if ups != exp_ups or any(g[3] != b"" for g in obs["top"] if g[0] == "up"):
                 out.append(("oracle:frames_in_order_once", {"observed": ups, "expected": exp_ups}))
             if fails:
                 out.append(("oracle:no_false_failure", {"observed": obs["top"][:6], "expected": "no failure reported"}))
-            if obs["disk_rs"] != 1:
-                out.append(("oracle:rs_persisted", {"observed_profile_key": obs["disk_rs"], "expected": 1,
-                                                    "note": "0 none, 1 the server's key, 2 the stale stored key"}))
-            nper = [x for x in obs["log"] if x[1] == 15]
-            first_stored = {"XX": 0, "IK": 1, "FB": 2}[scn["variant"]]
-            exp_per = 0 if first_stored == 1 else 1
-            if len(nper) != exp_per or any(x[2] != 1 for x in nper):
-                out.append(("oracle:rs_written_iff_changed", {"observed_writes": nper, "expected_count": exp_per}))
+            if obs["disk_rs"] != exp_disk:
+                out.append(("oracle:rs_persisted", {"observed_profile_key": obs["disk_rs"], "expected": exp_disk,
+                                                    "note": "0 none, 1/3/4 the server's keys, 2 the stale stored key"}))
+            if [x[2] for x in nper] != exp_writes:
+                out.append(("oracle:rs_written_iff_changed", {"observed_writes": nper, "expected_keys": exp_writes}))
         else:
-            if fails != ["event", "failure"] or ups:
-                out.append(("oracle:failure_reported", {"observed": obs["top"][:6],
-                                                        "expected": "handshake-failed event then <failure> stanza, no frame"}))
-            if [x for x in obs["log"] if x[1] == 15]:
-                out.append(("oracle:rs_written_iff_changed", {"observed_writes": [x for x in obs["log"] if x[1] == 15],
-                                                              "expected_count": 0}))
+            if fails != exp_fails or ups != exp_ups or [g[0] for g in obs["top"]] != exp_kinds:
+                out.append(("oracle:failure_reported", {"observed": obs["top"][:8], "expected_kinds": exp_kinds,
+                                                        "expected": "per failing login: handshake-failed event then "
+                                                                    "<failure> stanza, no frame; other logins' frames in order"}))
+            if [x[2] for x in nper] != exp_writes:
+                out.append(("oracle:rs_written_iff_changed", {"observed_writes": nper, "expected_keys": exp_writes}))
+            if len(plan) > 1 and obs["disk_rs"] != exp_disk:
+                out.append(("oracle:rs_persisted", {"observed_profile_key": obs["disk_rs"], "expected": exp_disk}))
         if not obs["written"].startswith(obs["expected_prologue"]):
             out.append(("oracle:prologue", {"observed": obs["written"][:40].hex(), "expected": obs["expected_prologue"].hex()}))
-        pres = [r["presented"] for r in obs["resp"] if r["presented"] is not None]
-        for p in pres:
-            exp = obs["expected_presented"]
+        # the payload the server decrypted on connection i == the configuration in force when auth event i was emitted
+        # (from the scenario, and as the rig recorded it at that moment)
+        npres = 0
+        for i, r in enumerate(obs["resp"]):
+            p = r["presented"]
+            if p is None:
+                continue
+            npres += 1
+            exp = plan[i]["configured"] if i < len(plan) else obs["expected_presented"]
+            rec = obs["logins"][i]["configured"] if i < len(obs.get("logins", [])) else exp
             diff = {k: (p.get(k), v) for k, v in exp.items() if p.get(k) != v}
+            diff.update({k: (p.get(k), v) for k, v in rec.items() if p.get(k) != v})
             if diff:
-                out.append(("oracle:presented", {"observed_vs_expected": diff}))
+                out.append(("oracle:presented", {"login": i + 1, "of_logins": len(plan), "handshake": r["variant"],
+                                                 "observed_vs_configured": diff,
+                                                 "history": self.presented_per_login(scn, obs) if len(plan) > 1 else None}))
                 break
-        if ok and not pres:
-            out.append(("oracle:presented", {"observed": "server never saw a ClientPayload"}))
+        if all_ok and answered and npres < (len(answered) if scn.get("quiesce") else 1):
+            out.append(("oracle:presented", {"observed": "server saw a ClientPayload on %d of %d answered logins"
+                                                         % (npres, len(answered))}))
         errs = [e for r in obs["resp"] for e in r["errors"]]
-        if ok and errs and not self.history_is_finding(obs):
+        if all_ok and errs and not self.history_is_finding(obs):
             out.append(("oracle:server_side", {"observed": errs[:3]}))
         return out
 
@@ -285,6 +391,73 @@ def gen_reconnect_ok(rng):
              [("data", 10 + i) for i in range(n2)]
     return {"variant": variant, "edge": rng.choice([None, ROUTING]), "passive": rng.random() < .5, "corrupt": None,
             "script": script, "chunk": rng.choice(["whole", "small", "rand"]), "hold": [rng.random() < .5 for _ in script]}
+
+
+PUSHNAMES = [None, "verif", "\u00fcser", "after registration"]
+FDIDS = [None, "0f1e2d3c-aaaa-bbbb-cccc-1234567890ab", "11111111-2222-3333-4444-555555555555"]
+
+
+def gen_history(rng, nmax=4):
+    """2..nmax logins on ONE stack instance: connect, login, [frames], disconnect, reconnect ...; between
+    logins the passive flag, pushname, mcc/mnc, fdid and the key the server answers with change (so the
+    logins run through XX / IK / IK->XXfallback in varying order); a login may fail authentication.
+    Inside the proved reconnect domain: the next disconnect/auth is handled when no worker is alive."""
+    n = rng.randint(2, nmax)
+    variant = rng.choice(["XX", "XX", "IK", "FB"])
+    cur = {"passive": rng.random() < .5, "pushname": rng.choice(PUSHNAMES), "mcc": rng.choice([None, "262"]),
+           "mnc": rng.choice([None, "02"]), "fdid": rng.choice(FDIDS), "srv": 1, "corrupt": None}
+    script = []
+    for i in range(n):
+        if i > 0:
+            if rng.random() < .9:
+                script.append(("disc",))
+            if rng.random() < .65:
+                cur["passive"] = not cur["passive"]
+            for k, vals in (("pushname", PUSHNAMES), ("mcc", [None, "262", "310"]), ("mnc", [None, "02", "260"]),
+                            ("fdid", FDIDS)):
+                if rng.random() < .4:
+                    cur[k] = rng.choice(vals)
+            if rng.random() < .35:
+                cur["srv"] = rng.choice([1, 3, 4])
+        cur["corrupt"] = rng.randint(0, 200) if rng.random() < .1 else None
+        script.append(("auth", dict(cur)))
+        script.append(("hello",))
+        if cur["corrupt"] is None:
+            script += [("data", 10 * i + j) for j in range(rng.randint(0, 3))]
+    return {"variant": variant, "edge": rng.choice([None, None, ROUTING]), "corrupt": None, "quiesce": True,
+            "script": script, "chunk": rng.choice(["whole", "bytes", "small", "rand", "rand"]),
+            "hold": [rng.random() < .5 for _ in script]}
+
+
+def registration_flow(variant="XX"):
+    """yowsup's own flow after registration: passive login (prekeys are uploaded), disconnect, non-passive login"""
+    return {"variant": variant, "edge": None, "corrupt": None, "quiesce": True, "chunk": "whole",
+            "script": [("auth", {"passive": True}), ("hello",), ("data", 0), ("disc",),
+                       ("auth", {"passive": False}), ("hello",), ("data", 10)], "hold": [False] * 7}
+
+
+def history_shrinks(scn):
+    """smaller histories to try when one fails: every pair (first login, a later login) without frames"""
+    auths = [it for it in scn["script"] if it[0] == "auth"]
+    out = []
+    for j in range(1, len(auths)):
+        a, b = dict(auths[0][1] or {}), dict(auths[j][1] or {})
+        a["corrupt"] = b["corrupt"] = None
+        out.append({"variant": scn["variant"], "edge": None, "corrupt": None, "quiesce": True, "chunk": "whole",
+                    "script": [("auth", a), ("hello",), ("disc",), ("auth", b), ("hello",)], "hold": [False] * 5})
+    return out
+
+
+def run_history(chk, scn, chooser, chunk_seed, kind):
+    """run a history; on failure look for a smaller failing history and report that one"""
+    obs, bad = chk.run_case(scn, chooser, chunk_seed, kind, record=False)
+    if not bad:
+        return obs, bad
+    for small in history_shrinks(scn):
+        o2, b2 = chk.run_case(small, fixed_chooser([]), 7, kind, record=False)
+        if b2 and set(b2) & set(bad):
+            return chk.run_case(small, fixed_chooser(o2["trace"]), 7, kind)
+    return chk.run_case(scn, fixed_chooser(obs["trace"]), chunk_seed, kind)
 
 
 def explore(chk, scn, limit, kind, chunk_seed=7):
@@ -400,6 +573,15 @@ def run(ctx):
                                      [0, 0, 0, 1, 1, 1, 0, 0, 0, 0, 2, 2, 2, 0, 0, 1, 1, 1, 1]])
         if isinstance(w, tuple) or w[2] != 0 or w[1][8] != 1 or [list(e) for e in w[1][6]] != [[14, 0, 0], [13, 0, 0]]:
             ctx.violation("correspondence:C04.witness", {"model": repr(w)[:400]}, found_input=False)
+        # C04_history_nonvacuous / h_script: passive XX login, disconnect, non-passive IK login (auto schedule)
+        ca, cb = [4915112345678, 1, [11, 262, 2, 0]], [4915112345678, 0, [12, 262, 2, 0]]
+        w = model.call("run_sched", [[0, 0, 0, 0, 0, 0],
+                                     [[0] + ca, [2, 101, 1, 1, 7], [3, 1], [3, 2], [1], [0] + cb, [2, 102, 2, 1, 0], [3, 3]],
+                                     [0, 0, 0, 1, 1, 1, 0, 1, 1, 1, 1, 1, 1, 1] + [0] * 24 + [2, 2, 2, 0, 2, 2, 2, 2, 2] + [0] * 12])
+        want = [[1, 2, ca], [2, 1, cb]]
+        got = None if isinstance(w, tuple) else [[e[0], e[1], [e[2][0], e[2][1], list(e[2][2])]] for e in w[1][11]]
+        if got != want or w[2] != 0 or w[1][7] != 1:
+            ctx.violation("correspondence:C04.witness-history", {"model": repr(w)[:600], "expected_pres": want}, found_input=False)
 
     # 1. seeded schedules, all variants / configs / failure path / chunkings
     nrand = 350 if quick else 12000
@@ -438,6 +620,29 @@ def run(ctx):
             break
         scn = gen_reconnect_ok(rng)
         chk.run_case(scn, (lambda ready, s, r=random.Random(rng.random()): r.choice(ready)), rng.randrange(1 << 30), "reconnect-ok")
+
+    # 3b. login histories on one stack instance with the configuration changing between logins: each
+    #     connection must be presented the configuration in force at ITS auth event (model: pres; oracle)
+    nhist = 0
+    hist_logins = {}
+    for i in range(90 if quick else 3000):
+        if any(v["found_input"] for v in ctx.violations):
+            break
+        scn = registration_flow(["XX", "IK", "FB"][i % 3]) if i < 6 else gen_history(rng)
+        chooser = (lambda ready, s, r=random.Random(rng.random()): r.choice(ready)) if i % 5 else \
+            pct_chooser(random.Random(rng.random()), depth=rng.randint(1, 4), horizon=150)
+        obs, bad = run_history(chk, scn, chooser, rng.randrange(1 << 30), "history")
+        nhist += 1
+        k = "%d-logins" % len(obs["resp"])
+        hist_logins[k] = hist_logins.get(k, 0) + 1
+        if i % 29 == 0:
+            ctx.add_sample({"kind": "history", "variant": scn["variant"], "chunk": scn["chunk"],
+                            "logins": [{"login": l["login"], "handshake": l["handshake"],
+                                        "passive": (l["presented"] or {}).get("passive"),
+                                        "push_name": (l["presented"] or {}).get("push_name")}
+                                       for l in chk.presented_per_login(scn, obs)],
+                            "delivered": [g[1] for g in obs["top"] if g[0] == "up"]})
+    ctx.coverage["history_runs"] = {"runs": nhist, "by_logins": hist_logins}
 
     # 4. reconnect after an attempt cut off before the server hello: the open known finding.
     #    Every schedule must still be a run of the model; the property oracle fails -> KNOWN-FINDING.
@@ -493,7 +698,9 @@ def run(ctx):
     ctx.coverage["harness_wall_s"] = round(time.time() - t0, 1)
     return ctx.finish(
         rule="case = (scenario: variant XX/IK/IK->XXfallback x edge routing x passive x user-agent fields x "
-             "authenticating/corrupted hello x 0..4 transport segments x chunking of the server bytes, "
+             "authenticating/corrupted hello x 0..4 transport segments x chunking of the server bytes; or a history "
+             "of 2..4 logins on one stack instance whose passive flag / pushname / mcc / mnc / fdid / server key "
+             "change between logins, "
              "schedule: list of thread choices at queue/lock/state-check/profile-write/thread-start points); "
              "every scheduled case is replayed through the extracted model and judged by the property oracles; "
              "distinct_nontrivial = number of distinct (scenario, schedule) pairs actually executed "
@@ -517,6 +724,14 @@ def replay(ctx, data):
               "profile key:", obs["disk_rs"], "exceptions:", obs["exc"], "unmodelled:", obs["unmodelled"])
         print("expected: frames", ["s%d" % it[1] for it in scn["script"] if it[0] == "data"],
               "in order once; all threads done; failure reported iff corrupt=%r" % (scn.get("corrupt"),))
+        for l in chk.presented_per_login(scn, obs):
+            conf, pr = l["configured"] or {}, l["presented"]
+            print("login %d (%s): configured passive=%r push_name=%r mcc/mnc=%s/%s phone_id=%r | presented %s"
+                  % (l["login"], l["handshake"], conf.get("passive"), conf.get("push_name"), conf.get("mcc"),
+                     conf.get("mnc"), conf.get("phone_id"),
+                     "nothing" if pr is None else "passive=%r push_name=%r mcc/mnc=%s/%s phone_id=%r%s"
+                     % (pr.get("passive"), pr.get("push_name"), pr.get("mcc"), pr.get("mnc"), pr.get("phone_id"),
+                        "" if all(pr.get(k) == v for k, v in conf.items()) else "   <-- differs from the configuration in force")))
         bad = chk.judge(scn, obs, {"mode": "scheduled"}, verbose=True)
         if model:
             model.close()
